@@ -134,7 +134,20 @@ std::string one_line(std::string s)
 std::string strip_digits(std::string s)
 {
 	std::string r;
-	for (char c : s) if (!(c >= '0' && c <= '9')) r += c;
+	for (size_t i = 0; i < s.size(); ++i)
+	{
+		char const c = s[i];
+		// hexadecimal addresses (0x7f3a...) differ from process to process
+		if (c == '0' && i + 1 < s.size() && s[i + 1] == 'x')
+		{
+			i += 2;
+			while (i < s.size() && std::isxdigit((unsigned char)s[i])) ++i;
+			--i;
+			r += "ADDR";
+			continue;
+		}
+		if (!(c >= '0' && c <= '9')) r += c;
+	}
 	return r;
 }
 
